@@ -1378,6 +1378,8 @@ class Interp(object):
             return Rat.atom(Fn(name, (x, _axis(ax))))
         if name == "dot":
             return Rat.atom(Fn("dot", (x, args[0])))
+        if name == "diagonal" and not args and not kwargs:
+            return Rat.atom(Fn("diagonal", (x,)))
         if name in ("copy",):
             return x
         if name == "astype":
@@ -1875,6 +1877,36 @@ def _ones(I, a, k, e, env, ctx):
 @ext("numpy.empty", "numpy.empty_like")
 def _empty(I, a, k, e, env, ctx):
     return Rat.atom(Fn("uninit", (e.lineno,)))
+
+
+@ext("numpy.subtract.outer", "numpy.add.outer", "numpy.multiply.outer", "numpy.outer")
+def _outer(I, a, k, e, env, ctx):
+    if len(a) == 2 and all(isinstance(x, Rat) for x in a):
+        nm = {"subtract": "outer_sub", "add": "outer_add"}.get(norm_text(e.func).split(".")[-2], "outer")
+        return Rat.atom(Fn(nm, (a[0], a[1])))
+    return NotImplemented
+
+
+@ext("numpy.count_nonzero")
+def _count_nonzero(I, a, k, e, env, ctx):
+    if a and isinstance(a[0], Rat):
+        return Rat.atom(Fn("count_nonzero", (a[0], _axis(a[1] if len(a) > 1 else k.get("axis")))))
+    return NotImplemented
+
+
+@ext("numpy.vdot")
+def _vdot(I, a, k, e, env, ctx):
+    # vdot(a, b) = sum over all elements of conj(a) * b
+    if len(a) == 2 and all(isinstance(x, Rat) for x in a):
+        return Rat.atom(Fn("sum", (a[0].conj() * a[1], None)))
+    return NotImplemented
+
+
+@ext("numpy.diagonal", "numpy.diag")
+def _diagonal(I, a, k, e, env, ctx):
+    if len(a) == 1 and isinstance(a[0], Rat):
+        return Rat.atom(Fn("diagonal", (a[0],)))
+    return NotImplemented
 
 
 @ext("numpy.identity", "numpy.eye")
